@@ -79,6 +79,11 @@ func c06Terminal(w *World, cs c06Sched) (string, string) {
 		return "", "" // stranded or half-failed outcomes are C09's and C11's business
 	}
 	what := fmt.Sprintf("change %s, rollback %s (failure %s)", chg.Status.State, rb.Status.State, failText(rb.Status.Failure))
+	if rb.Status.State == configapi.TransactionStatus_FAILED {
+		// the request named the most recent change of T1 (the only later entry of the log is the rollback itself):
+		// it must be carried out, not refused
+		return "rollback-of-the-latest-change-refused/schedule", fmt.Sprintf("nothing can act any more, %s: the rollback of the most recent change of T1 was refused; Get returns %s", what, refCfg(got))
+	}
 	if !sameLeaves(got, want) {
 		cl := "rollback-does-not-restore-the-stored-configuration"
 		if rb.Status.State == configapi.TransactionStatus_FAILED {
